@@ -35,6 +35,28 @@ pub fn run_op<G: Rng + Clone>(r: &mut Random<G>, op: &str) -> R<String> {
 	})
 }
 
+/// the ops that need no `Clone` (generators such as `System<N>`)
+pub fn run_op_noclone<G: Rng>(r: &mut Random<G>, op: &str) -> R<String> {
+	Ok(match op {
+		"u32" => r.next_u32().to_string(),
+		"u64" => r.next_u64().to_string(),
+		"f32" => format!("f:{}", r.next_f32().to_bits()),
+		"f64" => format!("f:{}", r.next_f64().to_bits()),
+		"jump" => {
+			r.jump();
+			"-".to_string()
+		}
+		"clone" | "split" => return Err(Bad),
+		_ => {
+			let n: usize = op.strip_prefix("fill:").ok_or(Bad)?.parse().map_err(|_| Bad)?;
+			let off = (n * 5 + 1) % 8;
+			let mut buf = vec![0u8; n + 8];
+			r.fill_bytes(&mut buf[off..off + n]);
+			format!("b:{}", hex(&buf[off..off + n]))
+		}
+	})
+}
+
 pub fn run_ops<G: Rng + Clone>(r: &mut Random<G>, ops: &[&str]) -> R<Vec<String>> {
 	ops.iter().map(|op| run_op(r, op)).collect()
 }
